@@ -81,6 +81,33 @@ func (a *absint) linOfAt(t Term, depth int, at ssa.Instruction) linForm {
 		} else if ms, ok := stripIface(a.w.resolveLoad(t.V)).(*ssa.MakeSlice); ok && depth > 0 {
 			return a.linOfAt(termOf(ms.Cap), depth-1, at)
 		}
+		// len(x[lo:hi]) = hi - lo, len(x[lo:]) = len(x) - lo (the slice expression itself is
+		// an obligation of its own: here it is assumed to have succeeded)
+		if !t.Cap && depth > 0 {
+			if sl, ok := stripIface(a.w.resolveLoad(t.V)).(*ssa.Slice); ok {
+				if _, isStr := sl.X.Type().Underlying().(*types.Basic); !isStr {
+					var hi linForm
+					if sl.High != nil {
+						hi = a.linOfAt(termOf(sl.High), depth-1, at)
+					} else {
+						xt := sl.X.Type().Underlying()
+						if p, isP := xt.(*types.Pointer); isP {
+							xt = p.Elem().Underlying()
+						}
+						if arr, isArr := xt.(*types.Array); isArr {
+							hi = newLin()
+							hi.c = arr.Len()
+						} else {
+							hi = a.linOfAt(Term{V: sl.X, Len: true}, depth-1, at)
+						}
+					}
+					if sl.Low != nil {
+						return hi.addScaled(a.linOfAt(termOf(sl.Low), depth-1, at), -1)
+					}
+					return hi
+				}
+			}
+		}
 		// len(append(x, y...)) = len(x) + len(y)
 		if !t.Cap && depth > 0 {
 			if ac, ok := stripIface(a.w.resolveLoad(t.V)).(*ssa.Call); ok {
